@@ -45,7 +45,10 @@ var restoreMethods = map[string]string{
 	"rollbackToSavepoint": "sql", "rollbackToSubSavepoint": "sql", "rollback": "sql",
 }
 
-// read-only / bookkeeping methods of foreign types
+// read-only / bookkeeping methods of foreign types.  The state / statedb getters among them are not taken on trust:
+// every call the extractor drops because of this table is written to vmguards.json (pure_calls), checks/c20.py requires an
+// entry of READ_BINDING for each getter of packages state / statedb, and harness/state/verif_pure_test.go runs it on the
+// real code (a new getter without an entry there = no verdict).
 var pureMethods = map[string]bool{
 	// state / statedb getters
 	"GetData": true, "Balance": true, "Nonce": true, "CodeHash": true, "GetCode": true, "GetSourceCode": true,
